@@ -65,6 +65,13 @@ def run(ctx, rep):
     rep.configs.append(getattr(ctx, "alias", "default"))
     fonts = font_table(prog)
     rep.floor("R14.1", "MonoFont constants", len(fonts), 280)
+    try:
+        from rules.builders import check_builder
+        nb = check_builder(prog, rep, "R14.5", "embedded_graphics::mono_font::mono_text_style::MonoTextStyleBuilder", "embedded_graphics::mono_font::mono_text_style::MonoTextStyle")
+        rep.floor("R14.5", "MonoTextStyleBuilder methods", nb, 10)
+    except Exception as e:
+        import traceback; traceback.print_exc()
+        rep.fail("R14.5", "engine", "builder analysis crashed: %r" % (e,), status="undecided")
     n_map = set()
     for f, v in sorted(fonts, key=lambda x: x[0].path):
         key = f.path.replace("embedded_graphics::mono_font::", "")
